@@ -237,8 +237,9 @@ func runC05(r *Run) {
 	r.Imports = []string{"Base.Val", "Model.Stack", "Model.Loops", "Model.Include"}
 	r.Rule("include trees up to depth 3 over three component files (plain, with a <template :required> wrapper, with front-matter), each include giving every name as static / interpolated / bound attribute or not at all, " +
 		"names colliding with includer variables and front-matter keys, bound values of every JSON-like type (string, int, bool, list, map, missing, falsy), the same component included several times, " +
-		"shorthand tags registered by WithComponents; probes inside every component and after every include; non-trivial: a name collides, a required name is missing, or a bound non-string value is passed")
+		"shorthand tags registered by WithComponents (also nested in the content of one another, with v-once / v-for / v-if / bound attributes on the tag: the page written with shorthand tags and with <template include> must render the same bytes); probes inside every component and after every include; non-trivial: a name collides, a required name is missing, or a bound non-string value is passed")
 	r.Assume("attribute values contain no HTML-special characters and do not start with '{' or '[' (JSON auto-decoding of static strings is documented behaviour, exercised by the repository's own fixtures); one attribute per name on an include tag")
+	c16ShortLong(r) // pages of nested includes written as <template include> and as shorthand tags: same bytes
 	rr := r.Rng
 	n := 1500
 	if r.Thorough() {
